@@ -1,6 +1,8 @@
 import Ecal.Lemmas.EvalHeap
 import Ecal.Lemmas.ContainerPaths
 import Ecal.Lemmas.EvalFrame
+import Ecal.Lemmas.EvalLists
+import Ecal.Lemmas.EvalNew
 /-!
 # C05 — lexical scoping, functions, containers and objects
 
@@ -10,7 +12,8 @@ Theorems about the functions of `Model/Eval.lean` (scope chain: `scopeFor`, `loo
 `runM m st` = result and final state of a computation.  `St.chain st f sc` is the scope `sc` followed by
 its ancestors, `St.nearest st sc v` the first scope on that chain that defines `v`.
 
-Proved here: call_does_not_write_enclosing_frames, lookup_nearest, assign_nearest_or_local, let_local, inner_not_visible_outside,
+Proved here: len_add_del_model (incl. append aliasing), full call frames on `buildFrame` (which `runFunction` calls),
+objects partially (copy loop, bound methods, init once), call_does_not_write_enclosing_frames, lookup_nearest, assign_nearest_or_local, let_local, inner_not_visible_outside,
 call_fresh_locals_partial (frame = fresh index), closure_sees_definition_scope_partial (chain of a frame),
 args_missing_default_extra_ignored, prims_by_value_containers_by_ref (aliasing through the heap cell),
 read_after_write (one map cell, number and string keys) and read_after_write_paths (any nesting, acyclic
@@ -99,20 +102,34 @@ theorem fresh_scope_not_on_chain (st : St) : ∀ (f sc : Nat),
     (∀ s ∈ st.chain f sc, s < st.scopes.size) → st.scopes.size ∉ st.chain f sc := by
   intro f sc h hm; exact Nat.lt_irrefl _ (h _ hm)
 
-/-- function.Run allocates the frame as a NEW scope: its index is the current number of scopes, so it is
-    different from every scope of every earlier or enclosing call (fresh locals per call), and it starts empty
-    and parentless.  (Partial: the statement about the whole `callFrame` with defaults is only cross-checked by
-    the driver — `framesOk` on every final state.) -/
-theorem call_fresh_locals_partial (name : String) (st : St) :
-    runM (newScope name) st =
-      (.ok st.scopes.size, { st with scopes := st.scopes.push { name := name, parent := none, children := [], vars := [] } }) :=
-  newScope_run name none st
+/-- `runFunction` (inside the mutual block of the evaluator) builds its frame with `buildFrame`, evaluating
+    defaults in the CALLER's scope, and evaluates the body in that frame. -/
+theorem runFunction_uses_buildFrame (f callerSc id : Nat) (args : List Val) :
+    runFunction (f + 1) callerSc id args = (do
+      let fr ← (match (← get).funcs[id]? with
+        | some fr => pure fr
+        | none => throw (Sig.unsupported "dangling function id"))
+      let decl := fr.decl
+      let c0 ← child decl 0
+      let off := if c0.name == "identifier" then 1 else 0
+      let params := (← child decl off).children
+      let body ← child decl (off + 1)
+      let fvs ← buildFrame (fun d => eval f callerSc d) fr params args
+      callCore (withFreshIs (eval f fvs body))) := by
+  unfold runFunction; rfl
 
-/-- Once a frame `fr` is linked to the declaration scope `ds`, what the body sees is the frame, then the
-    chain of the DECLARATION scope — the caller's scope does not occur. -/
-theorem closure_sees_definition_scope_partial (st : St) (fr ds f : Nat) (h : (st.scope fr).parent = some ds) :
-    st.chain (f + 1) fr = fr :: st.chain f ds := by
-  simp [St.chain, h]
+/-- the names a frame may define: `this`, `super`, the parameter names -/
+def FrameNames (params : List (Option Ecal.Parse.Node)) (w : String) : Prop :=
+  w = bytesToString thisName ∨ w = bytesToString superName ∨
+  ∃ p nm, some p ∈ params ∧ nodeParamName p = some nm ∧ w = bytesToString nm
+
+/-- parameter names are identifiers without access path (what the parser produces) -/
+def PlainParams (params : List (Option Ecal.Parse.Node)) : Prop :=
+  ∀ p nm, some p ∈ params → nodeParamName p = some nm → PlainName nm
+
+theorem namesOk_of_plain (params : List (Option Ecal.Parse.Node)) (h : PlainParams params) :
+    NamesOk (FrameNames params) params :=
+  fun p nm hp hn => ⟨h p nm hp hn, Or.inr (Or.inr ⟨p, nm, hp, hn, rfl⟩)⟩
 
 /-- A call changes no existing scope while it builds its frame: `this`, `super` and the parameters are written
     into the fresh, still parentless root scope, so they SHADOW and never overwrite variables of the same
@@ -120,49 +137,85 @@ theorem closure_sees_definition_scope_partial (st : St) (fr ds f : Nat) (h : (st
     outcome, also when a default raises an error; hypothesis `hev`: evaluating a default expression itself
     leaves scope `t` and the unreachable new frame alone (what the defaults and later the body assign is
     covered by `assign_nearest_or_local`). -/
-theorem call_does_not_write_enclosing_frames (ev : Ecal.Parse.Node → M Val) (name : String) (ds : Nat)
-    (this super : Option Val) (params : List Param) (args : List Val) (st st' : St) (r : Except Sig Nat) (t : Nat)
-    (ht : t < st.scopes.size) (hpl : ∀ p ∈ params, PlainName p.name)
-    (hev : DefaultKeeps ev st.scopes.size t)
-    (h : runM (callFrame ev name ds this super params args) st = (r, st')) :
+theorem call_does_not_write_enclosing_frames (ev : Ecal.Parse.Node → M Val) (fr : FuncRec)
+    (params : List (Option Ecal.Parse.Node)) (args : List Val) (st st' : St) (r : Except Sig Nat) (t : Nat)
+    (ht : t < st.scopes.size) (hpl : PlainParams params) (hev : DefaultKeeps ev st.scopes.size t)
+    (h : runM (buildFrame ev fr params args) st = (r, st')) :
     st'.scope t = st.scope t :=
-  callFrame_keeps_existing ev name ds this super params args st st' r t ht hpl hev h
+  (buildFrame_spec ev fr params args st st' r t (FrameNames params) ht (Or.inl rfl) (Or.inr (Or.inl rfl))
+    (namesOk_of_plain params hpl) hev h).1
 
-/-- non-vacuity: a method frame (`this` bound, parameter `a`) built over the example state; constant defaults -/
-example (st' : St) (r : Except Sig Nat)
-    (h : runM (callFrame (fun _ => pure Val.null) "m" 1 (some (.map 0)) none [⟨[97], none⟩] [.bool true]) exSt = (r, st')) :
-    st'.scope 0 = exSt.scope 0 :=
-  call_does_not_write_enclosing_frames _ "m" 1 _ _ _ _ exSt st' r 0 (by decide)
-    (by intro p hp; simp at hp; subst hp; unfold PlainName; decide)
-    (by intro d s r s1 hr; simp only [runM_pure] at hr; injection hr with _ h2; subst h2; exact ⟨Nat.le_refl _, rfl, rfl⟩) h
+/-- Fresh locals per call: the frame of a successful `buildFrame` is a NEW scope (its index is the number of
+    scopes before the call, so it is no scope of any earlier or enclosing call), and it defines nothing but
+    `this`, `super` and the parameters — no local of an earlier call of the same function survives. -/
+theorem call_fresh_locals (ev : Ecal.Parse.Node → M Val) (fr : FuncRec)
+    (params : List (Option Ecal.Parse.Node)) (args : List Val) (st st' : St) (fvs t : Nat)
+    (ht : t < st.scopes.size) (hpl : PlainParams params) (hev : DefaultKeeps ev st.scopes.size t)
+    (h : runM (buildFrame ev fr params args) st = (.ok fvs, st')) :
+    fvs = st.scopes.size ∧ fvs ≠ t ∧ fvs < st'.scopes.size ∧ ∀ w, st'.defines fvs w = true → FrameNames params w := by
+  have := (buildFrame_spec ev fr params args st st' (.ok fvs) t (FrameNames params) ht (Or.inl rfl) (Or.inr (Or.inl rfl))
+    (namesOk_of_plain params hpl) hev h).2 fvs rfl
+  exact ⟨this.fresh, by rw [this.fresh]; exact (Nat.ne_of_lt ht).symm, this.inBounds, this.onlyAllowed⟩
 
-/-- Positional parameters: the argument at the parameter's position if there is one, else the default
-    (evaluated by `evalDefault`, which the evaluator instantiates with evaluation in the caller's scope), else
-    null; arguments beyond the parameters are never looked at. -/
-theorem args_missing_default_extra_ignored (ev : Ecal.Parse.Node → M Val) (p : Param) (i : Nat) (args extra : List Val) :
-    (∀ a, args[i]? = some a → paramValue ev p i args = pure a) ∧
-    (args.length ≤ i → ∀ d, p.dflt = some d → paramValue ev p i args = ev d) ∧
-    (args.length ≤ i → p.dflt = none → paramValue ev p i args = pure Val.null) ∧
-    (∀ (fvs : Nat) (ps : List Param), i + ps.length ≤ args.length →
-      bindParams ev fvs ps i (args ++ extra) = bindParams ev fvs ps i args) := by
-  refine ⟨?_, ?_, ?_, ?_⟩
-  · intro a h; simp [paramValue, h]
-  · intro h d hd
-    have : args[i]? = none := List.getElem?_eq_none h
-    simp [paramValue, this, hd]
-  · intro h hd
-    have : args[i]? = none := List.getElem?_eq_none h
-    simp [paramValue, this, hd]
-  · intro fvs ps
+/-- A closure sees its DEFINITION scope: the finished frame is linked to the declaration scope of the
+    function, so from the body the chain is the frame, then the chain of the declaration scope (read in the
+    final state) — the caller's scope is not on it unless the declaration scope's own chain contains it. -/
+theorem closure_sees_definition_scope (ev : Ecal.Parse.Node → M Val) (fr : FuncRec)
+    (params : List (Option Ecal.Parse.Node)) (args : List Val) (st st' : St) (fvs t f : Nat)
+    (ht : t < st.scopes.size) (hpl : PlainParams params) (hev : DefaultKeeps ev st.scopes.size t)
+    (h : runM (buildFrame ev fr params args) st = (.ok fvs, st')) :
+    (st'.scope fvs).parent = some fr.declScope ∧ st'.chain (f + 1) fvs = fvs :: st'.chain f fr.declScope := by
+  have := (buildFrame_spec ev fr params args st st' (.ok fvs) t (FrameNames params) ht (Or.inl rfl) (Or.inr (Or.inl rfl))
+    (namesOk_of_plain params hpl) hev h).2 fvs rfl
+  exact ⟨this.linked, by simp [St.chain, this.linked]⟩
+
+/-- non-vacuity: a method frame (`this` bound, no parameters) built over the example state -/
+example : ∃ fvs st', runM (buildFrame (fun _ => pure Val.null) ⟨"m", default, 1, some (.map 0), none⟩ [] []) exSt = (.ok fvs, st') :=
+  ⟨_, _, rfl⟩
+
+/-- Positional parameters, `bindParamNode` / `bindParamNodes`: a plain parameter gets the argument at its
+    position or null; a parameter with default gets the argument if there is one (the default is NOT
+    evaluated), else the value of the default expression (evaluated by `ev`: the caller's scope); arguments
+    beyond the parameters are never looked at. -/
+theorem args_missing_default_extra_ignored (ev : Ecal.Parse.Node → M Val) (fvs : Nat) (p : Ecal.Parse.Node) (i : Nat)
+    (args extra : List Val) :
+    (∀ tk, p.name = "identifier" → p.tok = some tk →
+      bindParamNode ev fvs p i args = setValue fvs tk.val (args.getD i Val.null)) ∧
+    (∀ c d tk rest, p.name = "preset" → p.children = some c :: some d :: rest → c.tok = some tk →
+      (i < args.length → bindParamNode ev fvs p i args = setValue fvs tk.val (args.getD i Val.null)) ∧
+      (args.length ≤ i → bindParamNode ev fvs p i args = (ev d >>= fun v => setValue fvs tk.val v))) ∧
+    (i < args.length → bindParamNode ev fvs p i (args ++ extra) = bindParamNode ev fvs p i args) ∧
+    (∀ (ps : List (Option Ecal.Parse.Node)), i + ps.length ≤ args.length →
+      bindParamNodes ev fvs ps i (args ++ extra) = bindParamNodes ev fvs ps i args) := by
+  have hstep : ∀ (q : Ecal.Parse.Node) (j : Nat), j < args.length →
+      bindParamNode ev fvs q j (args ++ extra) = bindParamNode ev fvs q j args := by
+    intro q j hj
+    have h1 : j < (args ++ extra).length := by simp; omega
+    have h2 : (args ++ extra).getD j Val.null = args.getD j Val.null := by
+      simp [List.getD, List.getElem?_append_left hj]
+    simp only [bindParamNode, h1, hj, h2]
+  refine ⟨?_, ?_, hstep p i, ?_⟩
+  · intro tk hn ht
+    simp [bindParamNode, hn, tokOf, ht]
+  · intro c d tk rest hn hc ht
+    have hne : (p.name == "identifier") = false := by simp [hn]
+    constructor
+    · intro hi
+      simp [bindParamNode, hn, hne, child, hc, tokOf, ht, hi]
+    · intro hi
+      have hi' : ¬ i < args.length := by omega
+      simp [bindParamNode, hn, hne, child, hc, tokOf, ht, hi']
+  · intro ps
     induction ps generalizing i with
     | nil => intro _; rfl
     | cons q qs ih =>
       intro h
       simp only [List.length_cons] at h
-      have hi : i < args.length := by omega
-      have e : (args ++ extra)[i]? = args[i]? := List.getElem?_append_left hi
-      simp only [bindParams, paramValue, e]
-      rw [ih (i + 1) (by omega)]
+      cases q with
+      | none => rfl
+      | some q =>
+        simp only [bindParamNodes]
+        rw [hstep q i (by omega), ih (i + 1) (by omega)]
 
 /-- Numbers, strings, booleans are values; a list or a map is a reference to a heap cell.  Writing the map
     cell `r` (through whatever variable or path led to it) is seen by every holder of `.map r`: after
@@ -193,6 +246,123 @@ example : mapFieldLookup (mapStore [] (fieldKey [] [107]) (.bool true)) [107] = 
 /-- list cells: a write at a valid index is read back at that index -/
 theorem read_after_write_list (b : List Val) (i : Nat) (x : Val) (h : i < b.length) : (b.set i x)[i]? = some x := by
   simp [h]
+
+/-- `runBuiltin` (inside the mutual block) answers len / add / del / concat / new with the functions the
+    theorems below are about. -/
+theorem runBuiltin_uses (f sc : Nat) (node : Ecal.Parse.Node) (args : List Val) :
+    runBuiltin (f + 1) sc node "len" args = lenB args ∧ runBuiltin (f + 1) sc node "add" args = addB args ∧
+    runBuiltin (f + 1) sc node "del" args = delB args ∧ runBuiltin (f + 1) sc node "concat" args = concatB args ∧
+    runBuiltin (f + 1) sc node "new" args = newB (fun id rest => do
+        let ivs ← newScope "newfunc"
+        withFreshIs (runFunction f ivs id rest)) args := by
+  refine ⟨?_, ?_, ?_, ?_, ?_⟩ <;> (unfold runBuiltin; rfl)
+
+/-- len / add / del against the list and map model (`St.elems st r l` = the elements of the slice `.list r l`,
+    `St.entries st r` = the entries of map `r`):
+    * `len` = length of the list / number of entries of the map; anything else, or no argument, is an error;
+    * `add(l, v)` = Go's `append`: old elements followed by `v`; in the SAME backing array when the capacity
+      suffices (aliases no longer than the old list keep their elements, capacity unchanged), otherwise in a NEW
+      array (no alias of the old list changes); no other array is touched; first argument not a list, or fewer
+      than two arguments: error;
+    * `del(l, i)` with `0 ≤ i < len`: the old elements without position `i`, shifted inside the same array;
+      outside that range: error; `del(m, k)` filters out the entry under the STRING form of `k`. -/
+theorem len_add_del_model :
+    (∀ r l rest, lenB (.list r l :: rest) = pure (.num (Float.ofNat l))) ∧
+    (∀ r rest st, runM (lenB (.map r :: rest)) st = (.ok (.num (Float.ofNat (st.entries r).length)), st)) ∧
+    (lenB [] = throw (plain "Need a list or a map as first parameter")) ∧
+    (∀ r l v, addB [.list r l, v] = appendVals r l [v]) ∧
+    (∀ r l vs st st' res, r < st.lists.size → l ≤ (st.backing r).length →
+      runM (appendVals r l vs) st = (.ok res, st') →
+      ∃ r', res = .list r' (l + vs.length) ∧ st'.elems r' (l + vs.length) = st.elems r l ++ vs ∧
+        (∀ q, q ≠ r' → st'.backing q = st.backing q) ∧
+        ((r' = r ∧ (st'.backing r).length = (st.backing r).length ∧ ∀ l2, l2 ≤ l → st'.elems r l2 = st.elems r l2) ∨
+         (r' = st.lists.size ∧ ∀ l2, st'.elems r l2 = st.elems r l2))) ∧
+    (∀ a v rest, (∀ r l, a ≠ .list r l) → addB (a :: v :: rest) = throw (plain "Parameter 1 should be a list")) ∧
+    (∀ r l i st, r < st.lists.size → l ≤ (st.backing r).length → i < l →
+      ∃ st', runM (delAt r l i) st = (.ok (.list r (l - 1)), st') ∧ st'.elems r (l - 1) = (st.elems r l).eraseIdx i ∧
+        st'.backing r = (st.backing r).take i ++ ((st.backing r).take l).drop (i + 1) ++ (st.backing r).drop (l - 1) ∧
+        ∀ q, q ≠ r → st'.backing q = st.backing q) ∧
+    (∀ r l x i st, runM (goInt x) st = (.ok i, st) →
+      runM (delB [.list r l, .num x]) st =
+        if i < 0 || i ≥ (l : Int) then (.error (plain "Out of bounds access to list"), st) else runM (delAt r l i.toNat) st) ∧
+    (∀ r k key st, runM (sprint k) st = (.ok key, st) →
+      runM (delB [.map r, k]) st =
+        (.ok (.map r), { st with maps := st.maps.setIfInBounds r ((st.entries r).filter fun p => !(keyEq p.1 (.str key))) })) :=
+  ⟨len_list, len_map, len_noargs, add_append,
+   fun r l vs st st' res hr hl h => append_model r l vs st st' res hr hl h,
+   add_noList, delAt_model, del_list_run, del_map_run⟩
+
+/-- non-vacuity of the aliasing cases: appending to a full slice moves to a new array, to a slice with room stays -/
+example : ∃ st', runM (appendVals 1 1 [.null]) { lists := #[[], [.null]] } = (.ok (.list 2 2), st') := ⟨_, rfl⟩
+example : ∃ st', runM (appendVals 1 1 [.null]) { lists := #[[], [.null, .bool true]] } = (.ok (.list 1 2), st') := ⟨_, rfl⟩
+
+/-- `addSuperClasses`: FIRST the super templates, depth first and in list order (`superLoop`: elements that are
+    not maps are skipped, the returned inits are collected in order), THEN the template's own properties
+    (`copyProps`) — so own properties overwrite inherited ones and a later super overwrites an earlier one. -/
+theorem addSuperClasses_order (f obj tr : Nat) :
+    addSuperClasses (f + 1) obj tr = (do
+      let tkvs ← getMap tr
+      let (err, initSuper) ← (match mapLookup tkvs (.str superName) with
+        | some (.list r l) => do superLoop (addSuperClasses f obj) (← getList r l) none []
+        | some _ => pure (some (plain "Property _super must be a list of super classes"), [])
+        | none => pure (none, []))
+      let initFn ← copyProps obj initSuper tkvs Val.null
+      pure (initFn, err)) := rfl
+
+/- Full statement (tested by the correspondence run, not proved): after `new(T)`, every key of `T` and of all
+   super templates of `T`, transitively, is a key of the object; values: own template over supers, later super
+   over earlier.  Proved: the copy loop that `addSuperClasses` runs for EACH template (supers first, see
+   `addSuperClasses_order`) makes every string key of that template a key of the object, never removes a key
+   copied before, and a non-function property copied last is the value held.  Missing: the induction over the
+   super lists (needs that the template cells and the super lists are not changed while the object is filled). -/
+/-- one template's properties (string keys) all arrive in the object and earlier (inherited) keys stay -/
+theorem new_has_all_template_props_partial (obj : Nat) (initSuper : List Val) (tkvs : List (Val × Val)) (init0 r : Val)
+    (st st' : St) (ho : obj < st.maps.size) (h : runM (copyProps obj initSuper tkvs init0) st = (.ok r, st')) :
+    (∀ s, hasKey (st.entries obj) (.str s) = true → hasKey (st'.entries obj) (.str s) = true) ∧
+    (∀ s v, (Val.str s, v) ∈ tkvs → hasKey (st'.entries obj) (.str s) = true) :=
+  (copyProps_keys obj initSuper tkvs init0 r st st' ho h).2
+
+/-- own template wins: the property copied last under a key is the one the object holds -/
+theorem own_property_wins (obj : Nat) (initSuper : List Val) (s : List Nat) (v nv : Val) (st st' : St)
+    (ho : obj < st.maps.size) (hv : isFunc v = false) (h : runM (copyProp obj initSuper (.str s) v) st = (.ok nv, st')) :
+    mapLookup (st'.entries obj) (.str s) = some v :=
+  copyProp_value obj initSuper s v nv st st' ho hv h
+
+/- Full statement (tested, not proved): a method invoked through the object reads `this` = the object.  Proved:
+   the method stored in the object is a NEW function record bound to the object CELL (by reference: `.map obj`),
+   with the declaration and declaration scope of the template's function; `buildFrame` (see
+   `runFunction_uses_buildFrame`) writes `this` into the fresh frame before the parameters, into no other scope
+   (`call_does_not_write_enclosing_frames`).  Missing: that no later parameter write replaces the value (true unless
+   a parameter is itself called `this`). -/
+theorem method_this_partial (obj : Nat) (initSuper : List Val) (k nv : Val) (id : Nat) (st st' : St) (ho : obj < st.maps.size)
+    (h : runM (copyProp obj initSuper k (.func id)) st = (.ok nv, st')) :
+    st'.entries obj = mapStore (st.entries obj) k nv ∧
+    ∃ fr sup, st.funcs[id]? = some fr ∧ nv = .func st.funcs.size ∧
+      st'.funcs[st.funcs.size]? = some { fr with this := some (.map obj), super := sup } := by
+  have cr := copyProp_spec obj initSuper k (.func id) nv st st' ho h
+  obtain ⟨fr, sup, h1, h2, h3⟩ := cr.bound id rfl
+  exact ⟨cr.stored, fr, sup, h1, h2, by rw [h3]; simp⟩
+
+/-- `new` runs the `init` held by the finished object exactly ONCE, with the constructor arguments after the
+    template, as the last step: the result is the object unless init fails.  The init held is the template's own
+    bound init, or an inherited one when the template has none (it is a copied property like any other:
+    `new_has_all_template_props_partial`); its `super` is the list collected by `superLoop` (`addSuperClasses_order`,
+    `copyProp`).  The evaluator passes `runInit id args := function.Run` with a fresh empty caller scope
+    (`runBuiltin_uses`). -/
+theorem init_once_with_args (runInit : Nat → List Val → M Val) (tr id : Nat) (rest : List Val) (st s1 : St)
+    (r0 : Val) (err : Option Sig)
+    (hadd : runM (addSuperClasses 200 st.maps.size tr) { st with maps := st.maps.push [] } = (.ok (r0, err), s1))
+    (hinit : mapLookup (s1.entries st.maps.size) (.str initName) = some (.func id)) :
+    runM (newB runInit (.map tr :: rest)) st =
+      match runM (runInit id rest) s1 with
+      | (.ok _, s2) => (.ok (.map st.maps.size), s2)
+      | (.error e, s2) => (.error e, s2) :=
+  new_runs_init_once runInit tr id rest st s1 r0 err hadd hinit
+
+/-- non-vacuity: a template `{"init": f0}` — `new` binds init to the object and the hypotheses above hold -/
+example : ∃ r s1, runM (addSuperClasses 200 1 0)
+    { maps := #[[(.str initName, .func 0)], []], funcs := #[⟨"", default, 0, none, none⟩] } = (.ok r, s1) ∧
+    mapLookup (s1.entries 1) (.str initName) = some (.func 1) := ⟨_, _, rfl, rfl⟩
 
 /-- Any nesting (maps with number and string keys, lists with negative indices) on acyclic tree values: a
     successful write through a flattened access path is read back through the same path. -/
